@@ -428,6 +428,35 @@ theorem sub_transits_is_difference (a b : MF) (ts : List Transits) (h : addSubTr
     Atom.trans c k ∈ ts.flatMap Transits.atoms ↔ Atom.trans c k ∈ a.atoms ∧ Atom.trans c k ∉ b.atoms := by
   rw [addSubTransits_sub a b ts h c k, mem_atoms_trans, mem_atoms_trans]
 
+/-! ## ModelFeatures.__sub__ is the difference of the expanded spaces, modulo defaults -/
+
+/-- For every pair of search spaces on which `-` does not raise: every atom of `a` that is not an
+    atom of `b` is in `a - b`, and `a - b` contains nothing else but re-inserted defaults
+    (the class default of an emptied ABSORPTION/ELIMINATION/LAGTIME, or `create`'s defaults). -/
+theorem sub_is_difference_modulo_defaults (a b c : MF) (h : MF.sub a b = .ok c) :
+    (∀ x, x ∈ a.atoms → x ∉ b.atoms → x ∈ c.atoms) ∧
+      (∀ x, x ∈ c.atoms → (x ∈ a.atoms ∧ x ∉ b.atoms) ∨ x ∈ defaultAtoms) := by
+  obtain ⟨A, E, L, T, P, hT, hP, hA, hE, hL, hc⟩ := sub_unfold a b c h
+  obtain ⟨s1, s2⟩ := sub_components a b A E L T P hT hP hA hE hL
+  constructor
+  · intro x hx hnx
+    exact create_sup A E T P L c hc x (s1 x hx hnx)
+  · intro x hx
+    rcases create_sub A E T P L c hc x hx with h' | h'
+    · exact s2 x h'
+    · exact Or.inr h'
+
+/-- The defaults really are re-inserted (so plain set difference is false of the code), and the
+    result depends on whether a category is emptied by `==` (dropped, then defaulted only if another
+    category survives) or by `-` (class default): `a - a` is the empty space, while removing a strict
+    superset leaves the full default space. -/
+theorem sub_defaults_witness :
+    let a := mfOf [.absorption (.names ["FO"])]
+    let b := mfOf [.absorption (.names ["FO", "ZO"])]
+    (MF.sub a a).toOption.map MF.atoms = some [] ∧
+      (MF.sub a b).toOption.map (fun c => sameAtoms c.atoms defaultAtoms) = some true := by
+  decide +kernel
+
 /-! ## modelsearch: `exhaustive_stepwise` -/
 
 /-- `exhaustive_stepwise` creates exactly the non-empty root paths every step of which is accepted
